@@ -222,7 +222,7 @@ def search(rng, tier, deep):
     mods = load(["Epoch"])
     Epoch = mods["Epoch"].Epoch
     O = Out()
-    full = deep or tier == "thorough"
+    full = True     # the whole quantifier costs well under a minute in Python: always run it in full
     # ---- (a) the table
     prev = None
     for y in range(1950, 2101):
